@@ -151,6 +151,13 @@ def rules(vb: VB, features, group):
         ("i32", "validate()", "empty-validate"), ("i32", "default", "default-without-value"),
     ]
     unknown += [
+        ("i32", "validate[greater = 1]", "wrong-delimiter"), ("i32", "validate{greater = 1}", "wrong-delimiter"), ("i32", "derive[Debug]", "wrong-delimiter"),
+        ("String", "sanitize = trim", "attribute-shape"), ("i32", "validate(greater: 1)", "attribute-shape"), ("i32", "validate(greater 1)", "attribute-shape"),
+        ("i32", "validate(greater == 1)", "attribute-shape"), ("i32", "default(5), derive(Default)", "attribute-shape"), ("i32", "default: 5, derive(Default)", "attribute-shape"),
+        ("i32", "validate(greater = )", "attribute-shape"), ("i32", "validate(= 1)", "attribute-shape"), ("i32", "derive(Debug;Clone)", "attribute-shape"),
+        ("i32", "validate(greater = 1; less = 5)", "attribute-shape"), ("String", "validate(len_char_max = \"3\")", "bound-of-wrong-literal-type"),
+        ("i32", "validate(greater = \"1\")", "bound-of-wrong-literal-type"), ("f64", "validate(less = 'a')", "bound-of-wrong-literal-type"), ("i32", "validate(greater = 1.5)", "bound-of-wrong-literal-type"),
+        ("u8", "validate(less = 300)", "bound-out-of-type-range"), ("u8", "validate(greater = -1)", "bound-out-of-type-range"),
         ("String", "sanitize(trim, lowercas)", "unknown-sanitizer-last"), ("String", "sanitize(trim, Lowercase, with = |s| s)", "mis-cased-sanitizer-middle"),
         ("String", "validate(not_empty, len_char_maxx = 3)", "unknown-validator-last"), ("i32", "validate(greater = 1, finite)", "wrong-family-validator-last"),
         ("i32", "validate(greater = 1, not_empty, less = 9)", "wrong-family-validator-middle"), ("f64", "validate(finite, len_char_max = 3)", "wrong-family-validator-last"),
@@ -208,6 +215,13 @@ def rules(vb: VB, features, group):
         add(decl("T", "f64", "validate(%s)" % ", ".join(items)), R, "R7:bounds:with-finite-at-various-positions")
     for items in (["not_empty", "len_char_min = 5", "len_char_max = 3"], ["len_char_max = 3", "not_empty", "len_char_min = 5"], ["len_char_min = 5", "predicate = |s| true", "len_char_max = 3"]):
         add(decl("T", "String", "validate(%s)" % ", ".join(items)), R, "R7:len-bounds:various-positions")
+    # literal spellings with underscores / int literal for a float bound are still literals the macro can compare
+    add(decl("T", "i32", "validate(greater = 2_0, less = 1_0)"), R, "R7:bounds:underscored-literals")
+    add(decl("T", "i64", "validate(greater_or_equal = 1_000_000, less_or_equal = 999_999)"), R, "R7:bounds:underscored-literals")
+    add(decl("T", "f64", "validate(greater = 10, less = 5)"), R, "R7:bounds:int-literals-for-float")
+    add(decl("T", "f64", "validate(greater_or_equal = 1e1, less_or_equal = 5.0)"), R, "R7:bounds:exponent-literal")
+    add(decl("T", "f32", "validate(greater = 2.5, less_or_equal = 2.5)"), R, "R7:bounds:equal-float-exclusive")
+    add(decl("T", "i32", "validate(greater = 1_0, less = 2_0)"), A, "R7:bounds:underscored-literals-neighbour")
     add(decl("T", "i32", "validate(greater = -3, less = -5)"), R, "R7:bounds:negative")
     add(decl("T", "i32", "validate(greater = -5, less = -3)"), A, "R7:bounds:negative-neighbour")
     add(decl("T", "String", "validate(len_char_min = 5, len_char_max = 3)"), R, "R7:len-bounds")
@@ -506,6 +520,12 @@ def generated_tests_cases():
         # mixed: one literal, one expression
         add(ty, "validate(greater_or_equal = %s, less_or_equal = HI)" % lit(9), "const HI: %s = %s;" % (ty, lit(2)), T1, True)
         add(ty, "validate(less_or_equal = %s::MAX, greater_or_equal = LO)" % ty, "const LO: %s = %s;" % (ty, lit(2)), T1, False)
+        # literal spellings the macro treats as expressions (hex, suffixed, parenthesised) fall to the generated test as well
+        if not ty.startswith("f"):
+            add(ty, "validate(greater_or_equal = 5, less_or_equal = 0x3)", "", T1, True)
+            add(ty, "validate(greater_or_equal = (1), less_or_equal = 9%s)" % ty, "", T1, False)
+        else:
+            add(ty, "validate(greater_or_equal = 5.0, less_or_equal = (3.0))", "", T1, True)
     for mn, mx in ((5, 3), (3, 3), (3, 5), (0, 0)):
         add("String", "validate(len_char_min = MN, len_char_max = MX)", "const MN: usize = %d; const MX: usize = %d;" % (mn, mx), T2, mn > mx)
         add("String", "validate(len_char_max = MX, len_char_min = %d)" % mn, "const MX: usize = %d;" % mx, T2, mn > mx)
